@@ -619,7 +619,26 @@ void det_check_impl(const Json& c, Out& o) {
     // "vary": the number of frames per process() call changes from call to call (1..3), otherwise it is constant (chunk)
     const uint64_t vary = c.has("vary") ? c.getu("vary") : 0;
     Rng vr(vary);
+    // "bad": before some of the calls the caller first hands over a block of a length the detector refuses (not a multiple of
+    // frame_len(): a ragged capture tail), catches the exception and carries on.  The refused samples never became part of the
+    // stream, so everything below must hold unchanged.  (If the library accepts such a block, what the stream then is is not for
+    // this check to say: the case is discarded.)
+    const uint64_t bad = c.has("bad") ? c.getu("bad") : 0;
+    Rng br(bad);
+    int refused = 0;
     for (int f = 0, nf = 0; f < s.nframes; f += nf) {
+        if (bad && (f == 0 ? br.range(0, 2) == 0 : br.range(0, 1) == 0)) {
+            const int kinds[] = {frame + 1, std::max(1, frame / 2), 1, std::max(1, frame - 1), 2 * frame + 3, frame + nh};
+            const int blen = kinds[br.range(0, 5)];
+            if (blen % frame != 0) {
+                arr_cmplx junk(blen);
+                for (int i = 0; i < blen; ++i) { const cmplx_t v = s.x[(f * frame + i) % (s.nframes * frame)]; const double m = std::hypot(v.re, v.im); junk[i] = cmplx_t(v.re + m * br.gauss(), v.im + m * br.gauss()); }
+                bool threw = false;
+                try { (void)det.process(junk); } catch (const std::exception&) { threw = true; }
+                if (!threw) { o.label("bad-length-block-accepted"); o.discard = true; return; }
+                ++refused;
+            }
+        }
         nf = std::min(vary ? vr.range(1, 3) : chunk, s.nframes - f);
         const int start = f * frame, len = nf * frame;
         arr_cmplx blk(len);
@@ -665,6 +684,7 @@ void det_check_impl(const Json& c, Out& o) {
     o.label(nh < 32 ? "nh:16-31" : nh < 64 ? "nh:32-63" : nh < 128 ? "nh:64-127" : nh < 256 ? "nh:128-255" : "nh:256-512");
     o.label(thr < 0.5 ? "thr:0.3-0.5" : thr < 0.7 ? "thr:0.5-0.7" : "thr:0.7-0.9");
     o.label(vary ? "call:varying-frames-per-call" : chunk == 1 ? "call:1-frame" : "call:multi-frame");
+    if (refused) o.label("refused-blocks-between-calls");
     if (present == 2) o.label("absent:other-sequence");
     if (present == 0) o.label("absent:noise-only");
     const int tb = int(thr * 10);
@@ -711,7 +731,7 @@ static Json det_random_case(int present) {
     const int frame_guess = fft_len - nh + 1;
     const int off = oc == 0 ? 0 : oc == 1 ? frame_guess - 1 : oc == 2 ? pick(0, nh - 1) : pick(0, frame_guess - 1);
     return Json::object().set("nh", nh).set("type", pick(0, P_NTYPES - 1)).set("thr", thr).set("a_db", pickd(-35.0, 35.0)).set("snr_db", pickd(20.0, 100.0)).set("off", off)
-      .set("lead", pick(0, 4)).set("tail", pick(0, 4)).set("chunk", pick(1, 3)).set("vary", flip() ? (long long)(1 + pick64(0, 1 << 30)) : 0LL).set("present", present).set("seed", (long long)seed64());
+      .set("lead", pick(0, 4)).set("tail", pick(0, 4)).set("chunk", pick(1, 3)).set("vary", flip() ? (long long)(1 + pick64(0, 1 << 30)) : 0LL).set("bad", pick(0, 3) == 0 ? (long long)(1 + pick64(0, 1 << 30)) : 0LL).set("present", present).set("seed", (long long)seed64());
 }
 
 VK_SUB(drnd, "detector_random");
